@@ -29,6 +29,8 @@ type HostileConn struct {
 	Frag    int        `json:"frag"`    // write in fragments of this many bytes (0 = whole)
 	Abrupt  bool       `json:"abrupt"`  // reset the connection in the middle of the last line instead of closing gracefully
 	PauseMs int        `json:"pauseMs"` // pause between sentinel A and the hostile bytes (lets the periodic flush run)
+	Prelude []byte     `json:"prelude,omitempty"` // bytes sent before sentinel A: empty lines, blanks, CR LF (the very start of the connection's buffer)
+	BeforeC []byte     `json:"beforeC,omitempty"` // the same in front of sentinel C, i.e. at the start of the buffer after a periodic flush
 }
 
 type HostileCase struct {
@@ -131,6 +133,7 @@ func runHostile(c HostileCase) vh.Result {
 			break
 		}
 		var stream []byte
+		stream = append(stream, hc.Prelude...)
 		stream = append(stream, sentinel(ci, "A")...)
 		stream = append(stream, '\n')
 		write := func(b []byte) {
@@ -170,7 +173,7 @@ func runHostile(c HostileCase) vh.Result {
 		// sentinel C follows after a pause that is longer than the flush interval: whatever the bad bytes did to the
 		// line buffer, the periodic flush has cleaned it up by then
 		time.Sleep(45 * time.Millisecond)
-		write([]byte(sentinel(ci, "C") + "\n"))
+		write([]byte(string(hc.BeforeC) + sentinel(ci, "C") + "\n"))
 		if hc.Abrupt {
 			// A reset discards whatever the agent has not read yet, so first wait until the agent has taken sentinel B
 			// (it comes out after the periodic flush), then send a partial line and reset in the middle of it.
@@ -338,6 +341,9 @@ func genHostileCase(t *rapid.T) HostileCase {
 	n := rapid.IntRange(1, 3).Draw(t, "nconns")
 	for i := 0; i < n; i++ {
 		hc := HostileConn{Frag: rapid.SampledFrom([]int{0, 0, 1, 13, 500}).Draw(t, "frag"), Abrupt: rapid.IntRange(0, 3).Draw(t, "abrupt") == 0}
+		blanks := [][]byte{nil, nil, nil, []byte("\n"), []byte("\n\n"), []byte("\r\n"), []byte("\n\r\n"), []byte(" \n"), []byte("\x00\n"), []byte("\n \n")}
+		hc.Prelude = rapid.SampledFrom(blanks).Draw(t, "prelude")
+		hc.BeforeC = rapid.SampledFrom(blanks).Draw(t, "beforeC")
 		if rapid.IntRange(0, 2).Draw(t, "pause") == 0 {
 			hc.PauseMs = rapid.SampledFrom([]int{15, 40}).Draw(t, "pauseMs")
 		}
@@ -355,6 +361,6 @@ func TestListenerHostile(t *testing.T) {
 	}
 	vh.Run(t, vh.Spec[HostileCase]{
 		Name: "listener", Gen: genHostileCase, Run: runHostile, Quick: 10, Thorough: 150, Journal: true, ShrinkSeconds: 20,
-		Rule: "layer B: the real agent (sample configuration, real TCP listener, all transforms, both outputs, recording consumer instead of the network clients) receives on 1-3 connections: sentinel A, optional pause (periodic flush), 1-3 hostile inputs each ending in a newline (same generator as layer A, limits scaled to 300/2000 B so that the 4x line buffer is crossed), sentinel B, optionally an abrupt reset in the middle of a further line; fragmentation 1/13/500 bytes; oracle: the process stays alive (journal), every connection is accepted, sentinel B of every connection is delivered as a record of its own and sentinel A at least as the head of a record on both outputs, all chunks decode, the agent stops in bounded time; non-trivial = an input that reaches the parser (>=32 bytes starting with '<') or is longer than MaxRecordBytes",
+		Rule: "layer B: the real agent (sample configuration, real TCP listener, all transforms, both outputs, recording consumer instead of the network clients) receives on 1-3 connections: optional blank lines (LF, CR LF, a blank, NUL) at the very start, sentinel A, optional pause (periodic flush), 1-3 hostile inputs each ending in a newline (same generator as layer A, limits scaled to 300/2000 B so that the 4x line buffer is crossed), sentinel B, after a flush pause optional blank lines and sentinel C, optionally an abrupt reset in the middle of a further line; fragmentation 1/13/500 bytes; oracle: the process stays alive (journal), every connection is accepted, sentinel B of every connection is delivered as a record of its own and sentinel A at least as the head of a record on both outputs, all chunks decode, the agent stops in bounded time; non-trivial = an input that reaches the parser (>=32 bytes starting with '<') or is longer than MaxRecordBytes",
 	})
 }
